@@ -97,6 +97,112 @@ pub mod probe {
     }
 }
 
+/// Consumers that go through the specialisable iterator methods (nth, nth_back, fold, rfold,
+/// try_fold, last, len-based adaptors). `consume_de!` needs DoubleEndedIterator + ExactSizeIterator
+/// at compile time, `consume_fwd!` only Iterator. Returns None for a consumer that does not apply.
+pub const CONSUMERS: [&str; 15] = [
+    "nth(k)+rest", "nth_back(k)+rest", "take(k).rev()", "rev().skip(k)", "skip(k).rev()", "step_by(k+1)", "rev().step_by(k+1)", "last()",
+    "for_each", "rev().for_each", "by_ref().take(k)+rest", "by_ref().rev().take(k)+rest", "peekable: peek, nth(k), next_back, rest", "step_by(k+1).rev()", "skip(k).step_by(2)",
+];
+#[macro_export]
+macro_rules! consume_de {
+    ($it:expr, $how:expr, $k:expr) => {{
+        let mut it = $it;
+        let k: usize = $k;
+        match $how {
+            0 => {
+                let mut v = Vec::new();
+                if let Some(x) = it.nth(k) {
+                    v.push(x);
+                }
+                v.extend(it);
+                Some(v)
+            }
+            1 => {
+                let mut v = Vec::new();
+                if let Some(x) = it.nth_back(k) {
+                    v.push(x);
+                }
+                v.extend(it);
+                Some(v)
+            }
+            2 => Some(it.take(k).rev().collect::<Vec<_>>()),
+            3 => Some(it.rev().skip(k).collect::<Vec<_>>()),
+            4 => Some(it.skip(k).rev().collect::<Vec<_>>()),
+            5 => Some(it.step_by(k + 1).collect::<Vec<_>>()),
+            6 => Some(it.rev().step_by(k + 1).collect::<Vec<_>>()),
+            7 => Some(it.last().into_iter().collect::<Vec<_>>()),
+            8 => {
+                let mut v = Vec::new();
+                it.for_each(|x| v.push(x));
+                Some(v)
+            }
+            9 => {
+                let mut v = Vec::new();
+                it.rev().for_each(|x| v.push(x));
+                Some(v)
+            }
+            10 => {
+                let mut v: Vec<_> = it.by_ref().take(k).collect();
+                v.extend(it);
+                Some(v)
+            }
+            11 => {
+                let mut v: Vec<_> = it.by_ref().rev().take(k).collect();
+                v.extend(it);
+                Some(v)
+            }
+            12 => {
+                let mut p = it.peekable();
+                let _ = p.peek();
+                let mut v = Vec::new();
+                if let Some(x) = p.nth(k) {
+                    v.push(x);
+                }
+                if let Some(x) = p.next_back() {
+                    v.push(x);
+                }
+                v.extend(p);
+                Some(v)
+            }
+            13 => Some(it.step_by(k + 1).rev().collect::<Vec<_>>()),
+            14 => Some(it.skip(k).step_by(2).collect::<Vec<_>>()),
+            _ => None,
+        }
+    }};
+}
+#[macro_export]
+macro_rules! consume_fwd {
+    ($it:expr, $how:expr, $k:expr) => {{
+        let mut it = $it;
+        let k: usize = $k;
+        match $how {
+            0 => {
+                let mut v = Vec::new();
+                if let Some(x) = it.nth(k) {
+                    v.push(x);
+                }
+                v.extend(it);
+                Some(v)
+            }
+            5 => Some(it.step_by(k + 1).collect::<Vec<_>>()),
+            7 => Some(it.last().into_iter().collect::<Vec<_>>()),
+            8 => {
+                let mut v = Vec::new();
+                it.for_each(|x| v.push(x));
+                Some(v)
+            }
+            10 => {
+                let mut v: Vec<_> = it.by_ref().take(k).collect();
+                v.extend(it);
+                Some(v)
+            }
+            14 => Some(it.skip(k).step_by(2).collect::<Vec<_>>()),
+            _ => None,
+        }
+    }};
+}
+
 pub trait HasherCfg: BuildHasher + Default + Clone + 'static {
     const NAME: &'static str;
     /// lookups are linear under this hasher: keep sizes small
@@ -233,6 +339,9 @@ pub trait QueueApi: Sized + 'static {
     fn so_next_back(it: &mut Self::Sorted) -> Option<Option<(Item, Prio)>>;
     fn so_len(it: &Self::Sorted) -> Option<usize>;
     fn so_adaptor_lens(q: Self, which: usize, k: usize) -> (&'static str, Option<usize>, usize);
+    /// consume the sorted iterator / iter_mut through consumer `how` (see CONSUMERS); None = not applicable to this type
+    fn so_consume(q: Self, how: usize, k: usize) -> Option<Vec<(u32, i64)>>;
+    fn im_consume(q: &mut Self, how: usize, k: usize) -> Option<Vec<(u32, i64)>>;
 }
 
 macro_rules! common_methods {
@@ -495,6 +604,12 @@ macro_rules! impl_api {
                 assert!(desc);
                 self.into_sorted_vec()
             }
+            fn so_consume(q: Self, how: usize, k: usize) -> Option<Vec<(u32, i64)>> {
+                $crate::consume_fwd!(q.into_sorted_iter(), how, k).map(|v: Vec<(Item, Prio)>| v.iter().map(|(i, p)| (i.id(), p.ord)).collect())
+            }
+            fn im_consume(q: &mut Self, how: usize, k: usize) -> Option<Vec<(u32, i64)>> {
+                $crate::consume_fwd!(q.iter_mut(), how, k).map(|v: Vec<(&mut Item, &mut Prio)>| v.iter().map(|(i, p)| (i.id(), p.ord)).collect())
+            }
         }
         impl QueueApi for DoublePriorityQueue<Item, Prio, $H> {
             type H = $H;
@@ -546,6 +661,12 @@ macro_rules! impl_api {
                 } else {
                     self.into_ascending_sorted_vec()
                 }
+            }
+            fn so_consume(q: Self, how: usize, k: usize) -> Option<Vec<(u32, i64)>> {
+                $crate::consume_de!(q.into_sorted_iter(), how, k).map(|v: Vec<(Item, Prio)>| v.iter().map(|(i, p)| (i.id(), p.ord)).collect())
+            }
+            fn im_consume(q: &mut Self, how: usize, k: usize) -> Option<Vec<(u32, i64)>> {
+                $crate::consume_de!(q.iter_mut(), how, k).map(|v: Vec<(&mut Item, &mut Prio)>| v.iter().map(|(i, p)| (i.id(), p.ord)).collect())
             }
         }
     };
